@@ -149,12 +149,12 @@ def build_ellipse_model(shape, isolist, fill=0.0, high_harmonics=False):
                 weight[j + 1, i] += fy * (1.0 - fx)
                 weight[j + 1, i + 1] += fy * fx
 
-                # step towards next pixel on ellipse
-                phi = max((phi + 0.75 / r), geometry._phi_min)
-                r = max(geometry.radius(phi), 0.5)
-            # if outside image boundaries, ignore.
-            else:
-                break
+            # if outside image boundaries, ignore this point (but keep
+            # scanning: the ellipse may re-enter the image)
+
+            # step towards next pixel on ellipse
+            phi = max((phi + 0.75 / r), geometry._phi_min)
+            r = max(geometry.radius(phi), 0.5)
 
     # zero weight values must be set to 1.0
     weight[np.where(weight <= 0.0)] = 1.0
